@@ -32,7 +32,9 @@
   * `drain`        `tunnel`: write the reply to the client, `drainBuffer(crw, p.brw.Reader)` = `Peek`
                    the buffered bytes and write them once to the target; the copiers are then started
                    on the raw `p.conn`, never on the reader;
-  * `copy d n`     one iteration of `io.CopyBuffer` with the pooled 32 KiB buffer;
+  * `copy d n`     one iteration of `io.CopyBuffer` with the copier's *own* pooled 32 KiB buffer
+                   (`copier.copy` takes one per direction: the two pipes below share no state, which
+                   `c03_directions_independent` states);
   * `eof d`        `Read` returned `io.EOF`: `closeWriter` → `CloseWrite` on the destination, `donec <-`;
                    first one to finish arms `gracefulCloseAfter` (1 min), second one lets `bicopy`
                    return → deferred `crw.Close()` and `conn.Close()`;
